@@ -223,6 +223,11 @@ pub enum BOp {
     Enable(bool),
     Reset,
     SetTimeline { tl: usize, reset: bool, start_with: bool },
+    /// `Time::pause()` / `Time::unpause()`: while paused the app clock's delta is zero although
+    /// wall time passes
+    PauseTime(bool),
+    /// `Time::set_relative_speed`: 0 = half speed, 1 = normal, 2 = double speed
+    TimeSpeed(u8),
 }
 
 #[derive(Clone, Debug, PartialEq)]
@@ -238,9 +243,9 @@ pub struct BScn {
     pub frames: Vec<Frame>,
 }
 
-pub const FAULTS: [&str; 12] = [
+pub const FAULTS: [&str; 13] = [
     "none", "jitter", "zero_frame", "hitch", "suspend", "land_on_boundary", "event_burst",
-    "duplicate_event", "event_after_end", "toggle_enabled", "reset", "retarget",
+    "duplicate_event", "event_after_end", "toggle_enabled", "reset", "retarget", "app_clock",
 ];
 
 pub fn fault_static(s: &str) -> &'static str {
@@ -339,6 +344,8 @@ pub fn scn_to_json(s: &BScn) -> Json {
                         .set("set_timeline", *tl)
                         .set("then_reset", *reset)
                         .set("start_with_component", *start_with),
+                    BOp::PauseTime(b) => Json::obj().set("pause_app_clock", *b),
+                    BOp::TimeSpeed(x) => Json::obj().set("app_clock_speed", *x),
                 })
                 .collect::<Vec<_>>();
             let mut j = Json::obj().set("delta_ns", f.delta_ns);
@@ -433,6 +440,10 @@ pub fn scn_from_json(j: &Json) -> Result<BScn, String> {
                     ops.push(BOp::SetKey(k.as_i64()? as u8));
                 } else if let Some(b) = op.get("enable") {
                     ops.push(BOp::Enable(b.as_bool()?));
+                } else if let Some(b) = op.get("pause_app_clock") {
+                    ops.push(BOp::PauseTime(b.as_bool()?));
+                } else if let Some(x) = op.get("app_clock_speed") {
+                    ops.push(BOp::TimeSpeed(x.as_i64()? as u8));
                 } else if op.get("reset").is_some() {
                     ops.push(BOp::Reset);
                 } else if let Some(tl) = op.get("set_timeline") {
@@ -645,12 +656,31 @@ pub fn build_world(cfg: &Cfg) -> SimWorld {
 }
 
 impl SimWorld {
-    /// One frame: advance the hand-driven clock by `delta` and run the real schedule.
-    pub fn frame(&mut self, delta: Duration) {
-        self.now += delta;
+    /// One frame: advance the hand-driven wall clock by `raw_delta`, run the real schedule, and
+    /// return the frame's delta as the app clock (`Time::delta`) reports it - which differs from
+    /// the wall-clock delta while the clock is paused or scaled.
+    pub fn frame(&mut self, raw_delta: Duration) -> Duration {
+        self.now += raw_delta;
         let now = self.now;
-        self.app.world.resource_mut::<Time>().update_with_instant(now);
+        let delta = {
+            let mut time = self.app.world.resource_mut::<Time>();
+            time.update_with_instant(now);
+            time.delta()
+        };
         self.app.update();
+        delta
+    }
+
+    pub fn apply_time_op(&mut self, op: &BOp) {
+        let mut time = self.app.world.resource_mut::<Time>();
+        match op {
+            BOp::PauseTime(true) => time.pause(),
+            BOp::PauseTime(false) => time.unpause(),
+            BOp::TimeSpeed(0) => time.set_relative_speed(0.5),
+            BOp::TimeSpeed(2) => time.set_relative_speed(2.0),
+            BOp::TimeSpeed(_) => time.set_relative_speed(1.0),
+            _ => {}
+        }
     }
 
     pub fn drain_events(&mut self) -> Vec<(Entity, AnimationState)> {
